@@ -5,16 +5,476 @@ import PoxModel.Proofs.MatchSelf
 import PoxModel.Proofs.MatchV
 /-! # C03 — flow match and lookup semantics agree with OpenFlow 1.0
 
-Property theorems only.  Model: `Model/Match.lean` (`ofp_match`), `Model/FlowTable.lean` (`FlowTable`); standard:
-`Spec/OF10Match.lean`; helper lemmas: `Proofs/MatchBits.lean`, `Proofs/Match.lean`, `Proofs/FlowTable.lean`, `Proofs/Subsume.lean`, `Proofs/MatchSubsume.lean`.
+Property theorems only.  Model: `Model/Match.lean` (`ofp_match`), `Model/FlowTable.lean` (`FlowTable` and its operations, for any sort
+key), `Model/MatchV.lean` (the code variants); standard: `Spec/OF10Match.lean`; lemmas: `Proofs/MatchBits`, `Match`, `FlowTable`,
+`Subsume`, `MatchSubsume`, `MatchSelf`, `MatchV`.
 
-The model follows the code *with the proposed repairs D22 (SNAP OUI compared as bytes) and D29 (both addresses reduced to
-the network part before comparison) applied*; with them `matches_iff` needs no hypothesis about host bits under the prefix
-mask.  What remains excluded by hypotheses is witnessed by the `…_defect` theorems at the end (open findings). -/
+**Which variant is the code.**  `v : Variant` records which of the repairs D37 / D38 / D26 a tree has.  `/repo` HEAD has all three:
+it is `Variant.repaired` (the harness establishes that on every run by probing the three witness inputs, and validates it on
+every case).  `Variant.head` — and with it the un-suffixed functions `ofWire`, `extract`, `fromPacket`, `Entry.effectivePriority`,
+`regular`, `FlowOk` of `Model/Match.lean` — is the tree *before* those commits; theorems about it are kept at the end under
+"reverted tree" as regression witnesses (a revert of a repair makes the harness pick that variant, and the `_defect` theorems there
+say which inputs then fail).
+
+**The property, clause by clause, for the code as it stands** (section "the code as it stands"):
+
+| clause of C03 | theorem |
+|---|---|
+| a frame matches iff every non-wildcarded field whose prerequisites are met equals the header field, IP under the prefix mask | `matches_iff_repaired` |
+| fields extracted as the specification prescribes (VLAN, ARP, ICMP, fragments) | `extract_ok_repaired` |
+| lookup returns the matching entry of highest priority; miss only when none matches — after every history of table operations | `history_lookup_wire_repaired`, `lookup_spec_wire_repaired`, `miss_iff_wire_repaired`, `history_lookup_sequence_wire` |
+| exact-match entries outrank every wildcarded one | `exact_outranks_repaired`, `exact_iff_repaired` |
+| (mechanism) table sorted after every history, insertion position | `table_sorted_repaired`, `add_position`, `removal_sublist` |
+| (used by C04) non-strict selection is subsumption | `subsumes_iff_repaired`, `subsumes_iff_forall` |
+| a flow built from a packet matches it and is exact | `flow_from_packet_matches_repaired`, `flow_from_packet_exact_repaired` |
+
+What these still assume: ToS values without ECN bits (open finding D36, `matches_tos_defect`), complete frames (`regularG false`;
+`irregular_l4_witness`, `irregular_l3_witness` show what the code does otherwise — the standard is silent there), 16-bit priorities.
+
+**Two readings of "exact match (has no wildcards)".**  `Spec.exact` is the literal one (all 22 wildcard bits zero); `Spec.exactSig`
+the prerequisite-rule one (no wildcard on a field the match could compare; wildcard bits of ignored fields do not count — what the
+reference switch does and what the code implements since repair D26).  `IsBestSig` / `rankSig` use the latter and are what the
+`…_repaired` lookup theorems claim; `lookup_spec_wire_literal_repaired` is the literal-reading statement, valid for flows that set
+no wildcard bit on an ignored field (on those flows the two readings coincide). -/
 namespace Pox.C03
 open Pox.OF Pox.OF.OfMatch
 
 variable {α : Type}
+
+/-! ## every history of table operations
+
+Stated for every variant `v` (and both forms of the strict test of `is_matched_by`, `bothWays`); the instances for the code as it
+stands follow below. -/
+
+open TableOps in
+/-- **Invariant, by induction over the operation list.**  After every sequence of `add_entry` (any priority, any match),
+    `remove_entry`, `remove_matching_entries` (strict or not, any out_port filter) and `remove_expired_entries` (whatever decides
+    expiry), in any order and including calls that raise, the table is sorted by descending effective priority. -/
+theorem history_sorted (v : Variant) (bothWays : Bool) (ops : List (Op α)) : SortedBy v.effectivePriority (run v.effectivePriority bothWays ops) :=
+  run_sorted _ _ ops
+
+/-- `add_entry` never raises, whatever the sort key and the table: the binary search indexes inside the table -/
+theorem add_entry_total_by (key : Entry α → Nat) (e : Entry α) (tbl : Table α) :
+    addEntryBy? key e tbl = some (addEntryBy key e tbl) := addEntryBy?_eq_some key e tbl
+
+open TableOps in
+/-- one step of the induction: each operation preserves sortedness from *any* sorted table -/
+theorem step_preserves_sorted (v : Variant) (bothWays : Bool) (tbl : Table α) (op : Op α) (hs : SortedBy v.effectivePriority tbl) :
+    SortedBy v.effectivePriority (step v.effectivePriority bothWays tbl op).1 := step_sorted _ _ tbl op hs
+
+open TableOps in
+/-- where `add_entry` puts the entry: behind everything of higher effective priority, in front of everything of equal or lower —
+    in particular in front of the older entries of the same priority -/
+theorem add_position (v : Variant) (bothWays : Bool) (tbl : Table α) (e : Entry α) (hs : SortedBy v.effectivePriority tbl) :
+    ∃ l r, tbl = l ++ r ∧ (step v.effectivePriority bothWays tbl (.add e)).1 = l ++ e :: r ∧
+      (∀ x ∈ l, v.effectivePriority x > v.effectivePriority e) ∧ (∀ x ∈ r, v.effectivePriority x ≤ v.effectivePriority e) := by
+  rw [step_add]; exact addEntryBy_position _ e tbl hs
+
+open TableOps in
+/-- the removing operations delete entries and change nothing else: what is left is a sub-list (same relative order), and the
+    only call that raises is `remove_entry` of an object that is not in the table -/
+theorem removal_sublist (v : Variant) (bothWays : Bool) (tbl : Table α) (op : Op α) (h : ∀ e, op ≠ .add e) :
+    (step v.effectivePriority bothWays tbl op).1.Sublist tbl ∧
+    ((step v.effectivePriority bothWays tbl op).2 = true ↔ ∃ i, op = .removeAt i ∧ tbl.length ≤ i) :=
+  ⟨step_sublist _ _ tbl op h, step_raises_iff _ _ tbl op⟩
+
+open TableOps in
+/-- exact-match entries stand in front of every wildcarded one after every history (16-bit priorities) -/
+theorem history_exact_first (v : Variant) (bothWays : Bool) (ops : List (Op α)) (hp : ∀ e ∈ added ops, e.priority ≤ 0xffff) (i j : Nat)
+    (hi : i < (run v.effectivePriority bothWays ops).length) (hj : j < (run v.effectivePriority bothWays ops).length)
+    (he : v.isWildcarded (run v.effectivePriority bothWays ops)[i].mtch = false)
+    (hw : v.isWildcarded (run v.effectivePriority bothWays ops)[j].mtch = true) : i < j := by
+  apply Classical.byContradiction
+  intro hn
+  have hne : i ≠ j := by
+    rintro rfl
+    rw [he] at hw; cases hw
+  have hlt : j < i := by omega
+  have hs := List.pairwise_iff_getElem.mp (history_sorted v bothWays ops) j i hj hi hlt
+  have hpj : (run v.effectivePriority bothWays ops)[j].priority ≤ 0xffff := hp _ (mem_run _ _ ops _ (List.getElem_mem hj))
+  simp only [Variant.effectivePriority, hw, he, if_true, EXACT_PRIORITY] at hs
+  simp at hs
+  omega
+
+open TableOps in
+/-- after every history, `entry_for_packet` returns an accepted entry that no accepted entry of the table outranks, and misses
+    exactly when the table holds no accepted entry -/
+theorem history_lookup (v : Variant) (bothWays : Bool) (ops : List (Op α)) (p : PHdr) (port : Nat) :
+    (∀ e, v.entryForPacket (run v.effectivePriority bothWays ops) p port = some e →
+      e ∈ run v.effectivePriority bothWays ops ∧ e.accepts (v.fromPacket p port) = true ∧
+      ∀ e' ∈ run v.effectivePriority bothWays ops, e'.accepts (v.fromPacket p port) = true → v.effectivePriority e' ≤ v.effectivePriority e) ∧
+    (v.entryForPacket (run v.effectivePriority bothWays ops) p port = none ↔
+      ∀ e ∈ run v.effectivePriority bothWays ops, e.accepts (v.fromPacket p port) = false) := by
+  obtain ⟨h1, h2⟩ := first_match_max v.effectivePriority (Entry.accepts (v.fromPacket p port)) (run v.effectivePriority bothWays ops)
+    (history_sorted v bothWays ops)
+  exact ⟨fun e he => by obtain ⟨a, b, c⟩ := h1 e he; exact ⟨b, a, c⟩, h2⟩
+
+open TableOps in
+/-- **Lookup against the standard after every history.**  Whatever sequence of flow-mod-created entries (transmitted flows
+    satisfying `v.FlowOk`) has been added and whatever has been removed, matched away or expired in between, for every complete frame
+    `entry_for_packet` answers with a flow *currently in the table* that matches per the standard and that no matching flow
+    currently in the table outranks (exact-match flows above every priority) — and with a miss exactly when none matches.
+    `v.FlowOk` and `v.regular` shrink with the repairs: for `Variant.repaired` what is left is "16-bit priority, ToS without ECN
+    bits" on the flows and "complete frame, ToS without ECN bits" on the frame (`history_lookup_wire_repaired`). -/
+theorem history_lookup_wire (v : Variant) (bothWays : Bool) (ops : List (Op Spec.Flow)) (hadd : ∀ e ∈ added ops, e = v.toEntry e.data ∧ v.FlowOk e.data)
+    (p : PHdr) (port : Nat) (hr : v.regular p = true) (hpt : pktTos p % 4 = 0) :
+    Spec.IsBestSig ((run v.effectivePriority bothWays ops).map (·.data)) (Spec.headers p port)
+      ((v.entryForPacket (run v.effectivePriority bothWays ops) p port).map (·.data)) :=
+  v.lookup_isBest (run v.effectivePriority bothWays ops) (history_sorted v bothWays ops) (fun e he => hadd e (mem_run _ _ ops e he)) p port hr hpt
+
+open TableOps in
+/-- the same with all three repairs: no hypothesis about wildcarded prerequisite fields, about exact flows, or about ARP opcodes -/
+theorem history_lookup_wire_repaired (bothWays : Bool) (ops : List (Op Spec.Flow))
+    (hadd : ∀ e ∈ added ops, e = Variant.repaired.toEntry e.data ∧ e.data.priority ≤ 0xffff ∧ e.data.mtch.nwTos % 4 = 0)
+    (p : PHdr) (port : Nat) (hr : regularG false p = true) (hpt : pktTos p % 4 = 0) :
+    Spec.IsBestSig ((run Variant.repaired.effectivePriority bothWays ops).map (·.data)) (Spec.headers p port)
+      ((Variant.repaired.entryForPacket (run Variant.repaired.effectivePriority bothWays ops) p port).map (·.data)) :=
+  history_lookup_wire Variant.repaired bothWays ops
+    (fun e he => ⟨(hadd e he).1, Variant.FlowOk.mk (hadd e he).2.1 (fun h => absurd h (by decide)) (hadd e he).2.2
+                                  (fun h => absurd h (by decide))⟩) p port hr hpt
+
+/-! ## sequences of lookups -/
+
+open TableOps in
+/-- every answer in a sequence of lookups after any history is the standard's answer for that frame -/
+theorem history_lookup_sequence_wire (v : Variant) (bothWays : Bool) (ops : List (Op Spec.Flow))
+    (hadd : ∀ e ∈ added ops, e = v.toEntry e.data ∧ v.FlowOk e.data) (frames : List (PHdr × Nat))
+    (hf : ∀ x ∈ frames, v.regular x.1 = true ∧ pktTos x.1 % 4 = 0) (i : Nat) (hi : i < frames.length) :
+    ∃ r, (v.lookupSeq (run v.effectivePriority bothWays ops) frames)[i]? = some r ∧
+      Spec.IsBestSig ((run v.effectivePriority bothWays ops).map (·.data)) (Spec.headers frames[i].1 frames[i].2) (r.map (·.data)) := by
+  refine ⟨v.entryForPacket (run v.effectivePriority bothWays ops) frames[i].1 frames[i].2, by simp [Variant.lookupSeq, hi], ?_⟩
+  obtain ⟨h1, h2⟩ := hf frames[i] (List.getElem_mem hi)
+  exact history_lookup_wire v bothWays ops hadd frames[i].1 frames[i].2 h1 h2
+
+/-! ## the variants: what each repair buys -/
+
+/-- `matches_iff` for every variant: `PrereqExact` is needed only without repair D38, the 8-bit ARP opcode (inside `v.regular`) only
+    without repair D37 -/
+theorem matches_iff_v (v : Variant) (r : OfMatch) (p : PHdr) (port : Nat) (hp : v.prereqExact = false → PrereqExact r)
+    (ht : r.nwTos % 4 = 0) (hr : v.regular p = true) (hpt : pktTos p % 4 = 0) :
+    (v.ofWire r).matchesWith false (v.fromPacket p port) = Spec.matchHdr r (Spec.headers p port) :=
+  v.wire_accepts_packet r p port hp ht hr hpt
+
+/-- extraction is the standard's, in every variant (with repair D37: for every ARP opcode) -/
+theorem extract_ok_v (v : Variant) (p : PHdr) (port : Nat) (hr : v.regular p = true) :
+    ExtractOk p (v.extract true p (some port)) (Spec.headers p port) := v.extract_ok p port hr
+
+/-- exactness of a received flow: with repair D26 the code's test *is* the standard's (prerequisite-rule reading), for every
+    transmitted match; without it the two agree on flows that, when exact, carry no wildcard bit and are IPv4 TCP/UDP/ICMP -/
+theorem exact_iff_v (v : Variant) (r : OfMatch)
+    (hx : v.exactSig = false → Spec.exactSig r = true → Spec.exact r = true ∧ r.dlType = 0x0800 ∧ isL4Proto r.nwProto = true) :
+    v.isWildcarded (v.ofWire r) = !Spec.exactSig r := v.exact_agree r hx
+
+/-- subsumption in every variant -/
+theorem subsumes_iff_v (v : Variant) (a b : OfMatch) (ha : v.prereqExact = false → PrereqExact a)
+    (hb : v.prereqExact = false → PrereqExact b) (ta : a.nwTos % 4 = 0) (tb : b.nwTos % 4 = 0) (hbw : b.wildcards < 2 ^ 22) :
+    (v.ofWire a).matchesWith true (v.ofWire b) = true ↔
+      ∀ h : Spec.Headers, Spec.matchHdr b h = true → Spec.matchHdr a h = true := by
+  rw [v.code_subsumes a b ha hb ta tb hbw]
+  exact Spec.subsumes_forall a b
+
+/-- a flow built from a packet matches it, in every variant -/
+theorem flow_from_packet_matches_v (v : Variant) (sf : Bool) (p : PHdr) (ip : Option Nat) :
+    (v.ofWire (packFlowMod (fromHeaders (v.extract sf p ip)))).matchesWith false (fromHeaders (v.extract sf p ip)) = true :=
+  v.selfflow_accepts sf p ip
+
+/-- `spec_frags` only matters for IP fragments -/
+theorem spec_frags_irrelevant (g : Bool) (p : PHdr) (ip : Option Nat)
+    (h : ∀ s d pr tos l4, p.l3 ≠ .ipv4 s d pr tos true l4) : fromPacketG g false p ip = fromPacketG g true p ip := by
+  obtain ⟨src, dst, typ, llc, vlan, l3⟩ := p
+  unfold fromPacketG
+  congr 1
+  cases l3 with
+  | ipv4 s d pr tos frag l4 =>
+    cases frag
+    · cases llc with
+      | none => simp [extractG]
+      | some l => by_cases hs : l.snapOui = some 0 <;> simp [extractG, hs]
+    · exact absurd rfl (h s d pr tos l4)
+  | arp op s d =>
+    cases llc with
+    | none => simp [extractG]
+    | some l => by_cases hs : l.snapOui = some 0 <;> simp [extractG, hs]
+  | other =>
+    cases llc with
+    | none => simp [extractG]
+    | some l => by_cases hs : l.snapOui = some 0 <;> simp [extractG, hs]
+
+
+/-! ## the code as it stands: `Variant.repaired` (`/repo` HEAD)
+
+The instances of the theorems above and of the `_v` theorems below (`Proofs/MatchV.lean`) at the variant the code is.  No hypothesis
+about wildcarded prerequisite fields, about ARP opcodes or about which flows may be exact is left. -/
+
+/-- **Matching.**  For every match received in a flow-mod and every complete frame, the code's lookup test is the standard's
+    matching on the extracted 12-tuple (ToS values without ECN bits: D36). -/
+theorem matches_iff_repaired (r : OfMatch) (p : PHdr) (port : Nat) (ht : r.nwTos % 4 = 0)
+    (hr : regularG false p = true) (hpt : pktTos p % 4 = 0) :
+    (Variant.repaired.ofWire r).matchesWith false (Variant.repaired.fromPacket p port) = Spec.matchHdr r (Spec.headers p port) :=
+  Variant.repaired.wire_accepts_packet r p port (fun h => absurd h (by decide)) ht hr hpt
+
+/-- **Extraction** is the standard's (Figure 4 / Table 3) for every complete frame, whatever the ARP opcode. -/
+theorem extract_ok_repaired (p : PHdr) (port : Nat) (hr : regularG false p = true) :
+    ExtractOk p (Variant.repaired.extract true p (some port)) (Spec.headers p port) := Variant.repaired.extract_ok p port hr
+
+/-- **Exactness.**  A received flow is exact-match for the switch exactly when it is exact under the prerequisite rule —
+    for every transmitted match. -/
+theorem exact_iff_repaired (r : OfMatch) : Variant.repaired.isWildcarded (Variant.repaired.ofWire r) = !Spec.exactSig r :=
+  Variant.repaired.exact_agree r (fun h => absurd h (by decide))
+
+open TableOps in
+/-- the table is sorted by the code's effective priority after every history of table operations -/
+theorem table_sorted_repaired (ops : List (Op α)) :
+    SortedBy Variant.repaired.effectivePriority (run Variant.repaired.effectivePriority true ops) :=
+  history_sorted Variant.repaired true ops
+
+open TableOps in
+/-- exact-match entries stand before every wildcarded one after every history (16-bit priorities) -/
+theorem exact_outranks_repaired (ops : List (Op α)) (hp : ∀ e ∈ added ops, e.priority ≤ 0xffff) (i j : Nat)
+    (hi : i < (run Variant.repaired.effectivePriority true ops).length) (hj : j < (run Variant.repaired.effectivePriority true ops).length)
+    (he : Variant.repaired.isWildcarded (run Variant.repaired.effectivePriority true ops)[i].mtch = false)
+    (hw : Variant.repaired.isWildcarded (run Variant.repaired.effectivePriority true ops)[j].mtch = true) : i < j :=
+  history_exact_first Variant.repaired true ops hp i j hi hj he hw
+
+/-- what a transmitted flow must satisfy for the theorems below: 16-bit priority, ToS without ECN bits — nothing else -/
+theorem flowOk_repaired (f : Spec.Flow) (hp : f.priority ≤ 0xffff) (ht : f.mtch.nwTos % 4 = 0) : Variant.repaired.FlowOk f :=
+  ⟨hp, fun h => absurd h (by decide), ht, fun h => absurd h (by decide)⟩
+
+/-- **Lookup**, table built from a list of flow-mods: the answer is a flow that matches per the standard and that no matching
+    flow outranks (exact flows — prerequisite-rule reading — above every priority); a miss exactly when none matches. -/
+theorem lookup_spec_wire_repaired (fs : List Spec.Flow) (hfs : ∀ f ∈ fs, f.priority ≤ 0xffff ∧ f.mtch.nwTos % 4 = 0)
+    (p : PHdr) (port : Nat) (hr : regularG false p = true) (hpt : pktTos p % 4 = 0) :
+    Spec.IsBestSig fs (Spec.headers p port)
+      ((Variant.repaired.entryForPacket (Variant.repaired.install fs) p port).map (·.data)) :=
+  Variant.repaired.install_isBest fs (fun f hf => flowOk_repaired f (hfs f hf).1 (hfs f hf).2) p port hr hpt
+
+/-- the same under the **literal** reading of "exact match" (`Spec.exact`: all 22 wildcard bits zero), for flows that set no wildcard
+    bit on a field the prerequisite rule ignores (then the two readings agree) -/
+theorem lookup_spec_wire_literal_repaired (fs : List Spec.Flow) (hfs : ∀ f ∈ fs, f.priority ≤ 0xffff ∧ f.mtch.nwTos % 4 = 0)
+    (hx : ∀ f ∈ fs, Spec.exactSig f.mtch = Spec.exact f.mtch)
+    (p : PHdr) (port : Nat) (hr : regularG false p = true) (hpt : pktTos p % 4 = 0) :
+    Spec.IsBest fs (Spec.headers p port)
+      ((Variant.repaired.entryForPacket (Variant.repaired.install fs) p port).map (·.data)) :=
+  isBest_of_isBestSig fs _ _ hx (lookup_spec_wire_repaired fs hfs p port hr hpt)
+
+/-- a miss ⇔ no installed flow matches the frame per the standard -/
+theorem miss_iff_wire_repaired (fs : List Spec.Flow) (hfs : ∀ f ∈ fs, f.priority ≤ 0xffff ∧ f.mtch.nwTos % 4 = 0)
+    (p : PHdr) (port : Nat) (hr : regularG false p = true) (hpt : pktTos p % 4 = 0) :
+    Variant.repaired.entryForPacket (Variant.repaired.install fs) p port = none ↔
+      ∀ f ∈ fs, Spec.matchHdr f.mtch (Spec.headers p port) = false := by
+  have h := lookup_spec_wire_repaired fs hfs p port hr hpt
+  constructor
+  · intro hn; rw [hn] at h; exact h
+  · intro hall
+    cases hq : Variant.repaired.entryForPacket (Variant.repaired.install fs) p port with
+    | none => rfl
+    | some e =>
+      rw [hq] at h
+      have := hall _ h.1
+      rw [h.2.1] at this; cases this
+
+/-- `a.matches_with_wildcards(b)` on two received flows is the standard's subsumption -/
+theorem subsumes_iff_repaired (a b : OfMatch) (ta : a.nwTos % 4 = 0) (tb : b.nwTos % 4 = 0) (hbw : b.wildcards < 2 ^ 22) :
+    (Variant.repaired.ofWire a).matchesWith true (Variant.repaired.ofWire b) = true ↔
+      ∀ h : Spec.Headers, Spec.matchHdr b h = true → Spec.matchHdr a h = true := by
+  rw [Variant.repaired.code_subsumes a b (fun h => absurd h (by decide)) (fun h => absurd h (by decide)) ta tb hbw]
+  exact Spec.subsumes_forall a b
+
+/-- a flow built by `from_packet` / `pack(flow_mod=True)` from any frame matches that frame on the switch -/
+theorem flow_from_packet_matches_repaired (sf : Bool) (p : PHdr) (ip : Option Nat) :
+    (Variant.repaired.ofWire (packFlowMod (fromHeaders (Variant.repaired.extract sf p ip)))).matchesWith false
+      (fromHeaders (Variant.repaired.extract sf p ip)) = true := Variant.repaired.selfflow_accepts sf p ip
+
+/-- … and, built from a complete frame arriving on a port — any such frame, ARP and non-IP included —, it is exact-match for the
+    switch: it gets the priority above all 16-bit priorities -/
+theorem flow_from_packet_exact_repaired (p : PHdr) (port priority : Nat) (hr : regularG false p = true) :
+    Variant.repaired.isWildcarded (Variant.repaired.ofWire (packFlowMod (Variant.repaired.fromPacket p port))) = false ∧
+    Variant.repaired.effectivePriority
+      ({ priority := priority, mtch := Variant.repaired.ofWire (packFlowMod (Variant.repaired.fromPacket p port)), data := () } : Entry Unit)
+      = EXACT_PRIORITY := by
+  have h := Variant.repaired.selfflow_exact rfl p port hr
+  exact ⟨h, by simp [Variant.effectivePriority, h]⟩
+
+/-! ## subsumption (used by the non-strict MODIFY / DELETE of C04) -/
+
+/-- The standard's field-wise subsumption test is subsumption: `a` matches every 12-tuple `b` matches.  (About the Spec alone;
+    `h` ranges over all 12-tuples, as in the standard, not only over those a frame can produce.) -/
+theorem subsumes_iff_forall (a b : OfMatch) :
+    Spec.subsumes a b = true ↔ ∀ h : Spec.Headers, Spec.matchHdr b h = true → Spec.matchHdr a h = true :=
+  Spec.subsumes_forall a b
+
+
+/-! ## witnesses: hypotheses are satisfiable, and what happens outside them -/
+
+/-- 10.1.1.1:1000 → 10.2.2.2:80 TCP, untagged, from 00:…:01 to 00:…:02 -/
+def tcpFrame : PHdr :=
+  { src := 1, dst := 2, typ := 0x0800, llc := none, vlan := none,
+    l3 := .ipv4 0x0a010101 0x0a020202 6 0 false (.ports 1000 80) }
+/-- the same with ECT(0) in the ToS byte -/
+def tcpFrameEcn : PHdr := { tcpFrame with l3 := .ipv4 0x0a010101 0x0a020202 6 2 false (.ports 1000 80) }
+/-- ARP request 10.0.0.1 → 10.0.0.2 -/
+def arpFrame (opcode : Nat) : PHdr :=
+  { src := 1, dst := 2, typ := 0x0806, llc := none, vlan := none, l3 := .arp opcode 0x0a000001 0x0a000002 }
+/-- 802.3 + LLC/SNAP (OUI 0) + IPv4 -/
+def snapFrame : PHdr := { tcpFrame with typ := 50, llc := some { snapOui := some 0, ethType := 0x0800 } }
+
+/-- wildcard word with every flag set except those listed, and the two prefix counters -/
+def wc (clear : List Fld) (src dst : Nat) : Nat :=
+  (Fld.all.filter (fun f => !clear.contains f)).foldl (fun w f => w ||| f.mask) 0 ||| src <<< 8 ||| dst <<< 14
+
+def zeroMatch : OfMatch :=
+  { wildcards := 0, inPort := 0, dlSrc := 0, dlDst := 0, dlVlan := 0, dlVlanPcp := 0, dlType := 0, nwTos := 0, nwProto := 0,
+    nwSrc := 0, nwDst := 0, tpSrc := 0, tpDst := 0 }
+
+/-- `dl_type = 0x0800, nw_src = 10.9.9.9/8` (host bits under the mask: the input class of D29) -/
+def srcPrefix8 : OfMatch := { zeroMatch with wildcards := wc [.dlType] 24 32, dlType := 0x0800, nwSrc := 0x0a090909 }
+/-- the exact-match flow of `tcpFrame` arriving on port 1 -/
+def tcpExact : OfMatch :=
+  { wildcards := 0, inPort := 1, dlSrc := 1, dlDst := 2, dlVlan := 0xffff, dlVlanPcp := 0, dlType := 0x0800, nwTos := 0,
+    nwProto := 6, nwSrc := 0x0a010101, nwDst := 0x0a020202, tpSrc := 1000, tpDst := 80 }
+/-- the exact-match flow of `arpFrame 1` arriving on port 1 -/
+def arpExact : OfMatch :=
+  { wildcards := 0, inPort := 1, dlSrc := 1, dlDst := 2, dlVlan := 0xffff, dlVlanPcp := 0, dlType := 0x0806, nwTos := 0,
+    nwProto := 1, nwSrc := 0x0a000001, nwDst := 0x0a000002, tpSrc := 0, tpDst := 0 }
+def inPort1 : OfMatch := { zeroMatch with wildcards := wc [.inPort] 32 32, inPort := 1 }
+
+-- the hypotheses of `matches_iff` / `extract_ok` hold for non-trivial inputs, with both outcomes
+example : PrereqExact srcPrefix8 ∧ srcPrefix8.nwTos % 4 = 0 ∧ regular tcpFrame = true ∧ pktTos tcpFrame % 4 = 0 :=
+  ⟨⟨by decide, by decide⟩, by decide, by decide, by decide⟩
+example : (ofWire srcPrefix8).matchesWith false (fromPacket tcpFrame 1) = true := by decide
+example : (ofWire { srcPrefix8 with nwSrc := 0x0b090909 }).matchesWith false (fromPacket tcpFrame 1) = false := by decide
+example : regular snapFrame = true ∧ (Spec.headers snapFrame 1).dlType = 0x0800 ∧ (fromPacket snapFrame 1).dlType = 0x0800 := by decide
+example : regular (arpFrame 2) = true ∧ (extract (arpFrame 2) (some 1)).nwProto = some 2 := by decide
+
+-- tables: a history with exact and wildcarded entries at clustered priorities
+def demoFlows : List Spec.Flow :=
+  [⟨100, inPort1⟩, ⟨0xffff, srcPrefix8⟩, ⟨1, tcpExact⟩, ⟨100, { srcPrefix8 with wildcards := wc [.dlType] 32 32 }⟩]
+example : ∀ f ∈ demoFlows, FlowOk f := by
+  intro f hf
+  simp only [demoFlows, List.mem_cons, List.not_mem_nil, or_false] at hf
+  rcases hf with rfl | rfl | rfl | rfl <;>
+    exact ⟨by decide, ⟨by decide, by decide⟩, by decide, by decide⟩
+example : ((install demoFlows).map (·.priority)) = [1, 0xffff, 100, 100] := by decide
+example : ((entryForPacket (install demoFlows) tcpFrame 1).map (·.data.priority)) = some 1 := by decide
+example : entryForPacket (install demoFlows) (arpFrame 1) 2 = none := by decide
+-- `exact_outranks`: the installed table has an exact entry (position 0) and wildcarded ones behind it, all priorities 16-bit
+example : (install demoFlows).map (·.mtch.isExact) = [true, false, false, false] ∧ ∀ f ∈ demoFlows, f.priority ≤ 0xffff := by decide
+
+-- histories: adds at clustered priorities, a removal by position, a raising removal, a non-strict and a strict
+-- remove-matching, an expiry; the entries satisfy the hypotheses of `history_lookup_wire`; lookups hit and miss
+def demoOps : List (TableOps.Op Spec.Flow) :=
+  [.add (toEntry ⟨100, inPort1⟩), .add (toEntry ⟨100, srcPrefix8⟩), .add (toEntry ⟨1, tcpExact⟩), .removeAt 7,
+   .add (toEntry ⟨0xffff, { srcPrefix8 with wildcards := wc [.dlType] 32 32 }⟩), .removeAt 1,
+   .removeMatching (ofWire { srcPrefix8 with wildcards := wc [.dlType] 32 32 }) 5 true (fun _ => true),
+   .expire (fun e => e.priority == 100 && e.mtch.isWildcarded && e.data.mtch.inPort == 1)]
+example : ∀ e ∈ TableOps.added demoOps, e = Variant.head.toEntry e.data ∧ Variant.head.FlowOk e.data := by
+  intro e he
+  simp only [demoOps, TableOps.added, List.mem_cons, List.not_mem_nil, or_false] at he
+  rcases he with rfl | rfl | rfl | rfl <;>
+    exact ⟨rfl, ⟨by decide, fun _ => ⟨by decide, by decide⟩, by decide, fun _ => by decide⟩⟩
+example : (TableOps.run Entry.effectivePriority false demoOps).map (·.priority) = [1, 100] := by decide
+example : (TableOps.run Entry.effectivePriority false (demoOps.take 5)).map (·.priority) = [1, 0xffff, 100, 100] := by decide
+example : (TableOps.step Entry.effectivePriority false (TableOps.run Entry.effectivePriority false (demoOps.take 3)) (.removeAt 7)).2 = true := by decide
+example : ((entryForPacket (TableOps.run Entry.effectivePriority false demoOps) tcpFrame 1).map (·.data.priority)) = some 1 := by decide
+example : ((entryForPacket (TableOps.run Entry.effectivePriority false demoOps) tcpFrame 2).map (·.data.priority)) = some 100 := by decide
+example : entryForPacket (TableOps.run Entry.effectivePriority false demoOps) (arpFrame 1) 1 = none := by decide
+-- equal priorities: the newer entry goes in front of the older one
+example : (TableOps.run Entry.effectivePriority false (demoOps.take 2)).map (·.data.mtch.inPort) = [0, 1] := by decide
+
+-- flows built from packets: exact for TCP (also through VLAN / SNAP), matching for every shape
+example : regular tcpFrame = true ∧ isL4Packet tcpFrame = true ∧ packFlowMod (fromPacket tcpFrame 1) = tcpExact := by decide
+example : (ofWire (packFlowMod (fromPacket snapFrame 3))).isExact = true := by decide
+example : (ofWire (packFlowMod (fromPacketG true false (arpFrame 2) none))).matchesWith false (fromPacket (arpFrame 2) 9) = true := by decide
+
+-- the repaired variant on the witnesses of the open findings: D26 (the exact ARP flow wins), D38 (the value of a wildcarded dl_type
+-- no longer matters), D37 (opcode 257 is extracted as nw_proto 1); its hypotheses are satisfiable
+example : ((Variant.repaired.entryForPacket (TableOps.run Variant.repaired.effectivePriority true
+    [.add (Variant.repaired.toEntry ⟨1, arpExact⟩), .add (Variant.repaired.toEntry ⟨100, inPort1⟩)]) (arpFrame 1) 1).map (·.data.priority)) = some 1 := by
+  decide
+example : (Variant.repaired.ofWire { zeroMatch with wildcards := wc [.nwProto] 32 32, dlType := 0x0800, nwProto := 7 }).matchesWith false
+    (Variant.repaired.fromPacket tcpFrame 1) = true := by decide
+example : (Variant.repaired.extract true (arpFrame 257) (some 1)).nwProto = some 1 ∧ Variant.repaired.regular (arpFrame 257) = true := by decide
+example : Variant.repaired.isWildcarded (Variant.repaired.ofWire arpExact) = false ∧ Spec.exactSig arpExact = true ∧
+    Variant.head.isWildcarded (Variant.head.ofWire arpExact) = true := by decide
+
+-- sequences: two frames that differ only in ToS, both orders, on a table that discriminates on ToS
+def tosEntry : OfMatch := { zeroMatch with wildcards := wc [.dlType, .nwTos] 32 32, dlType := 0x0800, nwTos := 0xb8 }
+def tcpFrameEf : PHdr := { tcpFrame with l3 := .ipv4 0x0a010101 0x0a020202 6 0xb8 false (.ports 1000 80) }
+example : (Variant.repaired.lookupSeq (TableOps.run Variant.repaired.effectivePriority true
+      [.add (Variant.repaired.toEntry ⟨200, tosEntry⟩), .add (Variant.repaired.toEntry ⟨10, inPort1⟩)])
+    [(tcpFrame, 1), (tcpFrameEf, 1), (tcpFrame, 1)]).map (fun r => r.map (·.data.priority)) = [some 10, some 200, some 10] := by decide
+
+-- `lookup_spec_wire_repaired` / `…_literal_repaired`: the demo flows satisfy the hypotheses (none of them wildcards an ignored field)
+example : (∀ f ∈ demoFlows, f.priority ≤ 0xffff ∧ f.mtch.nwTos % 4 = 0) ∧ (∀ f ∈ demoFlows, Spec.exactSig f.mtch = Spec.exact f.mtch) := by
+  decide
+example : ((Variant.repaired.entryForPacket (Variant.repaired.install demoFlows) tcpFrame 1).map (·.data.priority)) = some 1 ∧
+    Variant.repaired.entryForPacket (Variant.repaired.install demoFlows) (arpFrame 1) 2 = none := by decide
+-- `flow_from_packet_exact_repaired`: also the flow of an ARP request is exact now
+example : regularG false (arpFrame 1) = true ∧
+    Variant.repaired.isWildcarded (Variant.repaired.ofWire (packFlowMod (Variant.repaired.fromPacket (arpFrame 1) 1))) = false := by decide
+
+-- subsumption: both outcomes
+example : (ofWire srcPrefix8).matchesWith true (ofWire tcpExact) = true := by decide
+example : (ofWire tcpExact).matchesWith true (ofWire srcPrefix8) = false := by decide
+example : PrereqExact tcpExact ∧ PrereqExact srcPrefix8 ∧ tcpExact.nwTos % 4 = 0 ∧ srcPrefix8.nwTos % 4 = 0 ∧
+    tcpExact.wildcards < 2 ^ 22 ∧ srcPrefix8.wildcards < 2 ^ 22 :=
+  ⟨⟨by decide, by decide⟩, ⟨by decide, by decide⟩, by decide, by decide, by decide, by decide⟩
+
+/-! ### open finding D36, and what "complete frame" excludes -/
+
+/-- **D36 (open).**  The code compares all 8 bits of the ToS byte, the standard only the 6 DSCP bits: a flow with `nw_tos = 0` does not
+    match a packet that carries ECT(0).  Every other hypothesis of `matches_iff_repaired` holds. -/
+theorem matches_tos_defect :
+    let r : OfMatch := { zeroMatch with wildcards := wc [.dlType, .nwTos] 32 32, dlType := 0x0800 }
+    r.nwTos % 4 = 0 ∧ regularG false tcpFrameEcn = true ∧
+    (Variant.repaired.ofWire r).matchesWith false (Variant.repaired.fromPacket tcpFrameEcn 1) = false ∧
+    Spec.matchHdr r (Spec.headers tcpFrameEcn 1) = true :=
+  ⟨by decide, by decide, by decide, by decide⟩
+
+/-- an IPv4 TCP packet whose TCP header did not parse (truncated segment): the parser hands over no transport object -/
+def truncTcpFrame : PHdr := { tcpFrame with l3 := .ipv4 0x0a010101 0x0a020202 6 0 false .none }
+/-- EtherType 0x0800 without an IPv4 object behind it (the parser never produces this: it always instantiates `ipv4` / `arp`) -/
+def noL3Frame : PHdr := { tcpFrame with l3 := .other }
+
+/-- Outside `regularG`: a truncated transport header.  The code leaves tp_src / tp_dst unassigned — they then equal nothing — where
+    the zero-filled 12-tuple of Figure 4 has 0; a flow `nw_proto = 6, tp_src = 0` tells the two apart.  The standard does not say what
+    the fields of a truncated header are (the reference switch zeroes nw_proto as well), so this is recorded, not counted as a
+    violation; the harness compares such frames model-against-code only. -/
+theorem irregular_l4_witness :
+    let r : OfMatch := { zeroMatch with wildcards := wc [.dlType, .nwProto, .tpSrc] 32 32, dlType := 0x0800, nwProto := 6 }
+    regularG false truncTcpFrame = false ∧ (Variant.repaired.extract true truncTcpFrame (some 1)).tpSrc = none ∧
+    (Spec.headers truncTcpFrame 1).tpSrc = 0 ∧
+    (Variant.repaired.ofWire r).matchesWith false (Variant.repaired.fromPacket truncTcpFrame 1) = false ∧
+    Spec.matchHdr r (Spec.headers truncTcpFrame 1) = true := by decide
+
+/-- Outside `regularG`: EtherType IPv4 with no IPv4 object.  nw_src stays unassigned where the 12-tuple has 0: the flow
+    `dl_type = 0x0800, nw_src = 0.0.0.0/8` matches per the 12-tuple and not in the code.  (Not reachable from the parser.) -/
+theorem irregular_l3_witness :
+    let r : OfMatch := { zeroMatch with wildcards := wc [.dlType] 24 32, dlType := 0x0800 }
+    regularG false noL3Frame = false ∧ (Variant.repaired.extract true noL3Frame (some 1)).nwSrc = none ∧
+    (Variant.repaired.ofWire r).matchesWith false (Variant.repaired.fromPacket noL3Frame 1) = false ∧
+    Spec.matchHdr r (Spec.headers noL3Frame 1) = true := by decide
+
+/-! ## definitional -/
+
+/-- *Definitional* — it restates the model, which keeps no state between lookups, and is not counted among the property theorems; the
+    content is the differential run of lookup sequences against the real `FlowTable`.
+    **Lookup is a function of (table, frame).**  In a sequence of lookups on one table — no table operation in between — every
+    answer is the answer that frame gets on its own, whatever was looked up before or after it.  (Trivial in the model, which keeps
+    no state between lookups; the correspondence drives the real `FlowTable` with such sequences — frames differing in exactly one of
+    the twelve fields, both orders — so that any state the code keeps between lookups has to be invisible.) -/
+theorem lookup_stateless (v : Variant) (tbl : Table α) (pre post : List (PHdr × Nat)) (x : PHdr × Nat) :
+    (v.lookupSeq tbl (pre ++ x :: post))[pre.length]? = some (v.entryForPacket tbl x.1 x.2) := by
+  simp [Variant.lookupSeq]
+
+
+/-! # the reverted tree: `Variant.head` (regression witnesses)
+
+Everything below is about the tree *before* the repairs D37 / D38 / D26 were committed — the un-suffixed functions of
+`Model/Match.lean`.  It does not describe `/repo` HEAD.  It is kept because a revert of one of those commits makes the harness select
+that variant again; the theorems then say under which hypotheses the property still holds, and the `_defect` witnesses which inputs
+fail (the harness replays them: its finding keys `match:rawprereq`, `extract:arp-opcode-above-255`, `lookup:exact-non-l4-outranked`
+are no longer listed as known, so they alarm). -/
 
 /-! ## table order -/
 
@@ -141,28 +601,6 @@ theorem flow_from_packet_hit (p : PHdr) (port : Nat) :
     Entry.accepts (fromPacket p port) ({ priority := 0, mtch := ofWire (packFlowMod (fromPacket p port)), data := () } : Entry Unit) = true :=
   selfflow_accepts _
 
-/-- `spec_frags` only matters for IP fragments -/
-theorem spec_frags_irrelevant (g : Bool) (p : PHdr) (ip : Option Nat)
-    (h : ∀ s d pr tos l4, p.l3 ≠ .ipv4 s d pr tos true l4) : fromPacketG g false p ip = fromPacketG g true p ip := by
-  obtain ⟨src, dst, typ, llc, vlan, l3⟩ := p
-  unfold fromPacketG
-  congr 1
-  cases l3 with
-  | ipv4 s d pr tos frag l4 =>
-    cases frag
-    · cases llc with
-      | none => simp [extractG]
-      | some l => by_cases hs : l.snapOui = some 0 <;> simp [extractG, hs]
-    · exact absurd rfl (h s d pr tos l4)
-  | arp op s d =>
-    cases llc with
-    | none => simp [extractG]
-    | some l => by_cases hs : l.snapOui = some 0 <;> simp [extractG, hs]
-  | other =>
-    cases llc with
-    | none => simp [extractG]
-    | some l => by_cases hs : l.snapOui = some 0 <;> simp [extractG, hs]
-
 /-- **When the flow built from a packet is exact-match for the switch**: exactly when `from_packet` assigned all twelve fields of
     an IPv4 match with protocol 1, 6 or 17 … -/
 theorem flow_from_packet_exact_iff (g sf : Bool) (p : PHdr) (ip : Option Nat) :
@@ -180,155 +618,6 @@ theorem flow_from_packet_exact (p : PHdr) (port priority : Nat) (hr : regular p 
     (selfflow_exact_iff _).mpr (l4packet_allAssigned p port hr hl)
   exact ⟨by simp [isExact, h], by simp [Entry.effectivePriority, h]⟩
 
-/-! ## every history of table operations
-
-`v : Variant` says which of the proposed repairs D26 / D37 / D38 the code has (`Model/MatchV.lean`); `Variant.head` is `/repo`
-HEAD, for which `v.effectivePriority`, `v.ofWire`, `v.fromPacket`, … are the functions used above (`Variant.head_*`, by `rfl`). -/
-
-open TableOps in
-/-- **Invariant, by induction over the operation list.**  After every sequence of `add_entry` (any priority, any match),
-    `remove_entry`, `remove_matching_entries` (strict or not, any out_port filter) and `remove_expired_entries` (whatever decides
-    expiry), in any order and including calls that raise, the table is sorted by descending effective priority. -/
-theorem history_sorted (v : Variant) (ops : List (Op α)) : SortedBy v.effectivePriority (run v.effectivePriority ops) :=
-  run_sorted _ ops
-
-open TableOps in
-/-- one step of the induction: each operation preserves sortedness from *any* sorted table -/
-theorem step_preserves_sorted (v : Variant) (tbl : Table α) (op : Op α) (hs : SortedBy v.effectivePriority tbl) :
-    SortedBy v.effectivePriority (step v.effectivePriority tbl op).1 := step_sorted _ tbl op hs
-
-open TableOps in
-/-- where `add_entry` puts the entry: behind everything of higher effective priority, in front of everything of equal or lower —
-    in particular in front of the older entries of the same priority -/
-theorem add_position (v : Variant) (tbl : Table α) (e : Entry α) (hs : SortedBy v.effectivePriority tbl) :
-    ∃ l r, tbl = l ++ r ∧ (step v.effectivePriority tbl (.add e)).1 = l ++ e :: r ∧
-      (∀ x ∈ l, v.effectivePriority x > v.effectivePriority e) ∧ (∀ x ∈ r, v.effectivePriority x ≤ v.effectivePriority e) := by
-  rw [step_add]; exact addEntryBy_position _ e tbl hs
-
-open TableOps in
-/-- the removing operations delete entries and change nothing else: what is left is a sub-list (same relative order), and the
-    only call that raises is `remove_entry` of an object that is not in the table -/
-theorem removal_sublist (v : Variant) (tbl : Table α) (op : Op α) (h : ∀ e, op ≠ .add e) :
-    (step v.effectivePriority tbl op).1.Sublist tbl ∧
-    ((step v.effectivePriority tbl op).2 = true ↔ ∃ i, op = .removeAt i ∧ tbl.length ≤ i) :=
-  ⟨step_sublist _ tbl op h, step_raises_iff _ tbl op⟩
-
-open TableOps in
-/-- exact-match entries stand in front of every wildcarded one after every history (16-bit priorities) -/
-theorem history_exact_first (v : Variant) (ops : List (Op α)) (hp : ∀ e ∈ added ops, e.priority ≤ 0xffff) (i j : Nat)
-    (hi : i < (run v.effectivePriority ops).length) (hj : j < (run v.effectivePriority ops).length)
-    (he : v.isWildcarded (run v.effectivePriority ops)[i].mtch = false)
-    (hw : v.isWildcarded (run v.effectivePriority ops)[j].mtch = true) : i < j := by
-  apply Classical.byContradiction
-  intro hn
-  have hne : i ≠ j := by
-    rintro rfl
-    rw [he] at hw; cases hw
-  have hlt : j < i := by omega
-  have hs := List.pairwise_iff_getElem.mp (history_sorted v ops) j i hj hi hlt
-  have hpj : (run v.effectivePriority ops)[j].priority ≤ 0xffff := hp _ (mem_run _ ops _ (List.getElem_mem hj))
-  simp only [Variant.effectivePriority, hw, he, if_true, EXACT_PRIORITY] at hs
-  simp at hs
-  omega
-
-open TableOps in
-/-- after every history, `entry_for_packet` returns an accepted entry that no accepted entry of the table outranks, and misses
-    exactly when the table holds no accepted entry -/
-theorem history_lookup (v : Variant) (ops : List (Op α)) (p : PHdr) (port : Nat) :
-    (∀ e, v.entryForPacket (run v.effectivePriority ops) p port = some e →
-      e ∈ run v.effectivePriority ops ∧ e.accepts (v.fromPacket p port) = true ∧
-      ∀ e' ∈ run v.effectivePriority ops, e'.accepts (v.fromPacket p port) = true → v.effectivePriority e' ≤ v.effectivePriority e) ∧
-    (v.entryForPacket (run v.effectivePriority ops) p port = none ↔
-      ∀ e ∈ run v.effectivePriority ops, e.accepts (v.fromPacket p port) = false) := by
-  obtain ⟨h1, h2⟩ := first_match_max v.effectivePriority (Entry.accepts (v.fromPacket p port)) (run v.effectivePriority ops)
-    (history_sorted v ops)
-  exact ⟨fun e he => by obtain ⟨a, b, c⟩ := h1 e he; exact ⟨b, a, c⟩, h2⟩
-
-open TableOps in
-/-- **Lookup against the standard after every history.**  Whatever sequence of flow-mod-created entries (transmitted flows
-    satisfying `v.FlowOk`) has been added and whatever has been removed, matched away or expired in between, for every complete frame
-    `entry_for_packet` answers with a flow *currently in the table* that matches per the standard and that no matching flow
-    currently in the table outranks (exact-match flows above every priority) — and with a miss exactly when none matches.
-    `v.FlowOk` and `v.regular` shrink with the repairs: for `Variant.repaired` what is left is "16-bit priority, ToS without ECN
-    bits" on the flows and "complete frame, ToS without ECN bits" on the frame (`history_lookup_wire_repaired`). -/
-theorem history_lookup_wire (v : Variant) (ops : List (Op Spec.Flow)) (hadd : ∀ e ∈ added ops, e = v.toEntry e.data ∧ v.FlowOk e.data)
-    (p : PHdr) (port : Nat) (hr : v.regular p = true) (hpt : pktTos p % 4 = 0) :
-    Spec.IsBestSig ((run v.effectivePriority ops).map (·.data)) (Spec.headers p port)
-      ((v.entryForPacket (run v.effectivePriority ops) p port).map (·.data)) :=
-  v.lookup_isBest (run v.effectivePriority ops) (history_sorted v ops) (fun e he => hadd e (mem_run _ ops e he)) p port hr hpt
-
-open TableOps in
-/-- the same with all three repairs: no hypothesis about wildcarded prerequisite fields, about exact flows, or about ARP opcodes -/
-theorem history_lookup_wire_repaired (ops : List (Op Spec.Flow))
-    (hadd : ∀ e ∈ added ops, e = Variant.repaired.toEntry e.data ∧ e.data.priority ≤ 0xffff ∧ e.data.mtch.nwTos % 4 = 0)
-    (p : PHdr) (port : Nat) (hr : regularG false p = true) (hpt : pktTos p % 4 = 0) :
-    Spec.IsBestSig ((run Variant.repaired.effectivePriority ops).map (·.data)) (Spec.headers p port)
-      ((Variant.repaired.entryForPacket (run Variant.repaired.effectivePriority ops) p port).map (·.data)) :=
-  history_lookup_wire Variant.repaired ops
-    (fun e he => ⟨(hadd e he).1, Variant.FlowOk.mk (hadd e he).2.1 (fun h => absurd h (by decide)) (hadd e he).2.2
-                                  (fun h => absurd h (by decide))⟩) p port hr hpt
-
-/-! ## sequences of lookups -/
-
-/-- **Lookup is a function of (table, frame).**  In a sequence of lookups on one table — no table operation in between — every
-    answer is the answer that frame gets on its own, whatever was looked up before or after it.  (Trivial in the model, which keeps
-    no state between lookups; the correspondence drives the real `FlowTable` with such sequences — frames differing in exactly one of
-    the twelve fields, both orders — so that any state the code keeps between lookups has to be invisible.) -/
-theorem lookup_stateless (v : Variant) (tbl : Table α) (pre post : List (PHdr × Nat)) (x : PHdr × Nat) :
-    (v.lookupSeq tbl (pre ++ x :: post))[pre.length]? = some (v.entryForPacket tbl x.1 x.2) := by
-  simp [Variant.lookupSeq]
-
-open TableOps in
-/-- every answer in a sequence of lookups after any history is the standard's answer for that frame -/
-theorem history_lookup_sequence_wire (v : Variant) (ops : List (Op Spec.Flow))
-    (hadd : ∀ e ∈ added ops, e = v.toEntry e.data ∧ v.FlowOk e.data) (frames : List (PHdr × Nat))
-    (hf : ∀ x ∈ frames, v.regular x.1 = true ∧ pktTos x.1 % 4 = 0) (i : Nat) (hi : i < frames.length) :
-    ∃ r, (v.lookupSeq (run v.effectivePriority ops) frames)[i]? = some r ∧
-      Spec.IsBestSig ((run v.effectivePriority ops).map (·.data)) (Spec.headers frames[i].1 frames[i].2) (r.map (·.data)) := by
-  refine ⟨v.entryForPacket (run v.effectivePriority ops) frames[i].1 frames[i].2, by simp [Variant.lookupSeq, hi], ?_⟩
-  obtain ⟨h1, h2⟩ := hf frames[i] (List.getElem_mem hi)
-  exact history_lookup_wire v ops hadd frames[i].1 frames[i].2 h1 h2
-
-/-! ## the variants: what each repair buys -/
-
-/-- `matches_iff` for every variant: `PrereqExact` is needed only without repair D38, the 8-bit ARP opcode (inside `v.regular`) only
-    without repair D37 -/
-theorem matches_iff_v (v : Variant) (r : OfMatch) (p : PHdr) (port : Nat) (hp : v.prereqExact = false → PrereqExact r)
-    (ht : r.nwTos % 4 = 0) (hr : v.regular p = true) (hpt : pktTos p % 4 = 0) :
-    (v.ofWire r).matchesWith false (v.fromPacket p port) = Spec.matchHdr r (Spec.headers p port) :=
-  v.wire_accepts_packet r p port hp ht hr hpt
-
-/-- extraction is the standard's, in every variant (with repair D37: for every ARP opcode) -/
-theorem extract_ok_v (v : Variant) (p : PHdr) (port : Nat) (hr : v.regular p = true) :
-    ExtractOk p (v.extract true p (some port)) (Spec.headers p port) := v.extract_ok p port hr
-
-/-- exactness of a received flow: with repair D26 the code's test *is* the standard's (prerequisite-rule reading), for every
-    transmitted match; without it the two agree on flows that, when exact, carry no wildcard bit and are IPv4 TCP/UDP/ICMP -/
-theorem exact_iff_v (v : Variant) (r : OfMatch)
-    (hx : v.exactSig = false → Spec.exactSig r = true → Spec.exact r = true ∧ r.dlType = 0x0800 ∧ isL4Proto r.nwProto = true) :
-    v.isWildcarded (v.ofWire r) = !Spec.exactSig r := v.exact_agree r hx
-
-/-- subsumption in every variant -/
-theorem subsumes_iff_v (v : Variant) (a b : OfMatch) (ha : v.prereqExact = false → PrereqExact a)
-    (hb : v.prereqExact = false → PrereqExact b) (ta : a.nwTos % 4 = 0) (tb : b.nwTos % 4 = 0) (hbw : b.wildcards < 2 ^ 22) :
-    (v.ofWire a).matchesWith true (v.ofWire b) = true ↔
-      ∀ h : Spec.Headers, Spec.matchHdr b h = true → Spec.matchHdr a h = true := by
-  rw [v.code_subsumes a b ha hb ta tb hbw]
-  exact Spec.subsumes_forall a b
-
-/-- a flow built from a packet matches it, in every variant -/
-theorem flow_from_packet_matches_v (v : Variant) (sf : Bool) (p : PHdr) (ip : Option Nat) :
-    (v.ofWire (packFlowMod (fromHeaders (v.extract sf p ip)))).matchesWith false (fromHeaders (v.extract sf p ip)) = true :=
-  v.selfflow_accepts sf p ip
-
-/-! ## subsumption (used by the non-strict MODIFY / DELETE of C04) -/
-
-/-- The standard's field-wise subsumption test is subsumption: `a` matches every 12-tuple `b` matches.  (About the Spec alone;
-    `h` ranges over all 12-tuples, as in the standard, not only over those a frame can produce.) -/
-theorem subsumes_iff_forall (a b : OfMatch) :
-    Spec.subsumes a b = true ↔ ∀ h : Spec.Headers, Spec.matchHdr b h = true → Spec.matchHdr a h = true :=
-  Spec.subsumes_forall a b
-
 /-- `a.matches_with_wildcards(b)` (`consider_other_wildcards=True`) on two matches received in flow-mods holds exactly when
     `a` subsumes `b` in the standard's sense.  Hypotheses as in `matches_iff`, plus: `b` sets none of the undefined bits 22..31
     of the wildcard word (the code compares them, the standard ignores them). -/
@@ -339,125 +628,7 @@ theorem subsumes_iff (a b : OfMatch) (ha : PrereqExact a) (hb : PrereqExact b) (
   rw [code_subsumes a b ha hb ta tb hbw]
   exact subsumes_iff_forall a b
 
-/-! ## witnesses: hypotheses are satisfiable, and what happens outside them -/
-
-/-- 10.1.1.1:1000 → 10.2.2.2:80 TCP, untagged, from 00:…:01 to 00:…:02 -/
-def tcpFrame : PHdr :=
-  { src := 1, dst := 2, typ := 0x0800, llc := none, vlan := none,
-    l3 := .ipv4 0x0a010101 0x0a020202 6 0 false (.ports 1000 80) }
-/-- the same with ECT(0) in the ToS byte -/
-def tcpFrameEcn : PHdr := { tcpFrame with l3 := .ipv4 0x0a010101 0x0a020202 6 2 false (.ports 1000 80) }
-/-- ARP request 10.0.0.1 → 10.0.0.2 -/
-def arpFrame (opcode : Nat) : PHdr :=
-  { src := 1, dst := 2, typ := 0x0806, llc := none, vlan := none, l3 := .arp opcode 0x0a000001 0x0a000002 }
-/-- 802.3 + LLC/SNAP (OUI 0) + IPv4 -/
-def snapFrame : PHdr := { tcpFrame with typ := 50, llc := some { snapOui := some 0, ethType := 0x0800 } }
-
-/-- wildcard word with every flag set except those listed, and the two prefix counters -/
-def wc (clear : List Fld) (src dst : Nat) : Nat :=
-  (Fld.all.filter (fun f => !clear.contains f)).foldl (fun w f => w ||| f.mask) 0 ||| src <<< 8 ||| dst <<< 14
-
-def zeroMatch : OfMatch :=
-  { wildcards := 0, inPort := 0, dlSrc := 0, dlDst := 0, dlVlan := 0, dlVlanPcp := 0, dlType := 0, nwTos := 0, nwProto := 0,
-    nwSrc := 0, nwDst := 0, tpSrc := 0, tpDst := 0 }
-
-/-- `dl_type = 0x0800, nw_src = 10.9.9.9/8` (host bits under the mask: the input class of D29) -/
-def srcPrefix8 : OfMatch := { zeroMatch with wildcards := wc [.dlType] 24 32, dlType := 0x0800, nwSrc := 0x0a090909 }
-/-- the exact-match flow of `tcpFrame` arriving on port 1 -/
-def tcpExact : OfMatch :=
-  { wildcards := 0, inPort := 1, dlSrc := 1, dlDst := 2, dlVlan := 0xffff, dlVlanPcp := 0, dlType := 0x0800, nwTos := 0,
-    nwProto := 6, nwSrc := 0x0a010101, nwDst := 0x0a020202, tpSrc := 1000, tpDst := 80 }
-/-- the exact-match flow of `arpFrame 1` arriving on port 1 -/
-def arpExact : OfMatch :=
-  { wildcards := 0, inPort := 1, dlSrc := 1, dlDst := 2, dlVlan := 0xffff, dlVlanPcp := 0, dlType := 0x0806, nwTos := 0,
-    nwProto := 1, nwSrc := 0x0a000001, nwDst := 0x0a000002, tpSrc := 0, tpDst := 0 }
-def inPort1 : OfMatch := { zeroMatch with wildcards := wc [.inPort] 32 32, inPort := 1 }
-
--- the hypotheses of `matches_iff` / `extract_ok` hold for non-trivial inputs, with both outcomes
-example : PrereqExact srcPrefix8 ∧ srcPrefix8.nwTos % 4 = 0 ∧ regular tcpFrame = true ∧ pktTos tcpFrame % 4 = 0 :=
-  ⟨⟨by decide, by decide⟩, by decide, by decide, by decide⟩
-example : (ofWire srcPrefix8).matchesWith false (fromPacket tcpFrame 1) = true := by decide
-example : (ofWire { srcPrefix8 with nwSrc := 0x0b090909 }).matchesWith false (fromPacket tcpFrame 1) = false := by decide
-example : regular snapFrame = true ∧ (Spec.headers snapFrame 1).dlType = 0x0800 ∧ (fromPacket snapFrame 1).dlType = 0x0800 := by decide
-example : regular (arpFrame 2) = true ∧ (extract (arpFrame 2) (some 1)).nwProto = some 2 := by decide
-
--- tables: a history with exact and wildcarded entries at clustered priorities
-def demoFlows : List Spec.Flow :=
-  [⟨100, inPort1⟩, ⟨0xffff, srcPrefix8⟩, ⟨1, tcpExact⟩, ⟨100, { srcPrefix8 with wildcards := wc [.dlType] 32 32 }⟩]
-example : ∀ f ∈ demoFlows, FlowOk f := by
-  intro f hf
-  simp only [demoFlows, List.mem_cons, List.not_mem_nil, or_false] at hf
-  rcases hf with rfl | rfl | rfl | rfl <;>
-    exact ⟨by decide, ⟨by decide, by decide⟩, by decide, by decide⟩
-example : ((install demoFlows).map (·.priority)) = [1, 0xffff, 100, 100] := by decide
-example : ((entryForPacket (install demoFlows) tcpFrame 1).map (·.data.priority)) = some 1 := by decide
-example : entryForPacket (install demoFlows) (arpFrame 1) 2 = none := by decide
--- `exact_outranks`: the installed table has an exact entry (position 0) and wildcarded ones behind it, all priorities 16-bit
-example : (install demoFlows).map (·.mtch.isExact) = [true, false, false, false] ∧ ∀ f ∈ demoFlows, f.priority ≤ 0xffff := by decide
-
--- histories: adds at clustered priorities, a removal by position, a raising removal, a non-strict and a strict
--- remove-matching, an expiry; the entries satisfy the hypotheses of `history_lookup_wire`; lookups hit and miss
-def demoOps : List (TableOps.Op Spec.Flow) :=
-  [.add (toEntry ⟨100, inPort1⟩), .add (toEntry ⟨100, srcPrefix8⟩), .add (toEntry ⟨1, tcpExact⟩), .removeAt 7,
-   .add (toEntry ⟨0xffff, { srcPrefix8 with wildcards := wc [.dlType] 32 32 }⟩), .removeAt 1,
-   .removeMatching (ofWire { srcPrefix8 with wildcards := wc [.dlType] 32 32 }) 5 true (fun _ => true),
-   .expire (fun e => e.priority == 100 && e.mtch.isWildcarded && e.data.mtch.inPort == 1)]
-example : ∀ e ∈ TableOps.added demoOps, e = Variant.head.toEntry e.data ∧ Variant.head.FlowOk e.data := by
-  intro e he
-  simp only [demoOps, TableOps.added, List.mem_cons, List.not_mem_nil, or_false] at he
-  rcases he with rfl | rfl | rfl | rfl <;>
-    exact ⟨rfl, ⟨by decide, fun _ => ⟨by decide, by decide⟩, by decide, fun _ => by decide⟩⟩
-example : (TableOps.run Entry.effectivePriority demoOps).map (·.priority) = [1, 100] := by decide
-example : (TableOps.run Entry.effectivePriority (demoOps.take 5)).map (·.priority) = [1, 0xffff, 100, 100] := by decide
-example : (TableOps.step Entry.effectivePriority (TableOps.run Entry.effectivePriority (demoOps.take 3)) (.removeAt 7)).2 = true := by decide
-example : ((entryForPacket (TableOps.run Entry.effectivePriority demoOps) tcpFrame 1).map (·.data.priority)) = some 1 := by decide
-example : ((entryForPacket (TableOps.run Entry.effectivePriority demoOps) tcpFrame 2).map (·.data.priority)) = some 100 := by decide
-example : entryForPacket (TableOps.run Entry.effectivePriority demoOps) (arpFrame 1) 1 = none := by decide
--- equal priorities: the newer entry goes in front of the older one
-example : (TableOps.run Entry.effectivePriority (demoOps.take 2)).map (·.data.mtch.inPort) = [0, 1] := by decide
-
--- flows built from packets: exact for TCP (also through VLAN / SNAP), matching for every shape
-example : regular tcpFrame = true ∧ isL4Packet tcpFrame = true ∧ packFlowMod (fromPacket tcpFrame 1) = tcpExact := by decide
-example : (ofWire (packFlowMod (fromPacket snapFrame 3))).isExact = true := by decide
-example : (ofWire (packFlowMod (fromPacketG true false (arpFrame 2) none))).matchesWith false (fromPacket (arpFrame 2) 9) = true := by decide
-
--- the repaired variant on the witnesses of the open findings: D26 (the exact ARP flow wins), D38 (the value of a wildcarded dl_type
--- no longer matters), D37 (opcode 257 is extracted as nw_proto 1); its hypotheses are satisfiable
-example : ((Variant.repaired.entryForPacket (TableOps.run Variant.repaired.effectivePriority
-    [.add (Variant.repaired.toEntry ⟨1, arpExact⟩), .add (Variant.repaired.toEntry ⟨100, inPort1⟩)]) (arpFrame 1) 1).map (·.data.priority)) = some 1 := by
-  decide
-example : (Variant.repaired.ofWire { zeroMatch with wildcards := wc [.nwProto] 32 32, dlType := 0x0800, nwProto := 7 }).matchesWith false
-    (Variant.repaired.fromPacket tcpFrame 1) = true := by decide
-example : (Variant.repaired.extract true (arpFrame 257) (some 1)).nwProto = some 1 ∧ Variant.repaired.regular (arpFrame 257) = true := by decide
-example : Variant.repaired.isWildcarded (Variant.repaired.ofWire arpExact) = false ∧ Spec.exactSig arpExact = true ∧
-    Variant.head.isWildcarded (Variant.head.ofWire arpExact) = true := by decide
-
--- sequences: two frames that differ only in ToS, both orders, on a table that discriminates on ToS
-def tosEntry : OfMatch := { zeroMatch with wildcards := wc [.dlType, .nwTos] 32 32, dlType := 0x0800, nwTos := 0xb8 }
-def tcpFrameEf : PHdr := { tcpFrame with l3 := .ipv4 0x0a010101 0x0a020202 6 0xb8 false (.ports 1000 80) }
-example : (Variant.repaired.lookupSeq (TableOps.run Variant.repaired.effectivePriority
-      [.add (Variant.repaired.toEntry ⟨200, tosEntry⟩), .add (Variant.repaired.toEntry ⟨10, inPort1⟩)])
-    [(tcpFrame, 1), (tcpFrameEf, 1), (tcpFrame, 1)]).map (fun r => r.map (·.data.priority)) = [some 10, some 200, some 10] := by decide
-
--- subsumption: both outcomes
-example : (ofWire srcPrefix8).matchesWith true (ofWire tcpExact) = true := by decide
-example : (ofWire tcpExact).matchesWith true (ofWire srcPrefix8) = false := by decide
-example : PrereqExact tcpExact ∧ PrereqExact srcPrefix8 ∧ tcpExact.nwTos % 4 = 0 ∧ srcPrefix8.nwTos % 4 = 0 ∧
-    tcpExact.wildcards < 2 ^ 22 ∧ srcPrefix8.wildcards < 2 ^ 22 :=
-  ⟨⟨by decide, by decide⟩, ⟨by decide, by decide⟩, by decide, by decide, by decide, by decide⟩
-
-/-! ### what the hypotheses exclude (open findings; the harness replays the same inputs on the real code) -/
-
-/-- ToS: the code compares all 8 bits of the ToS byte, the standard only the 6 DSCP bits.  A flow with `nw_tos = 0` does not
-    match a packet that carries ECT(0); every other hypothesis of `matches_iff` holds. -/
-theorem matches_tos_defect :
-    let r : OfMatch := { zeroMatch with wildcards := wc [.dlType, .nwTos] 32 32, dlType := 0x0800 }
-    PrereqExact r ∧ r.nwTos % 4 = 0 ∧ regular tcpFrameEcn = true ∧
-    (ofWire r).matchesWith false (fromPacket tcpFrameEcn 1) = false ∧
-    Spec.matchHdr r (Spec.headers tcpFrameEcn 1) = true :=
-  ⟨⟨by decide, by decide⟩, by decide, by decide, by decide, by decide⟩
-
-/-- Prerequisites read from wildcarded fields: with DL_TYPE wildcarded, the value left in the dl_type field decides whether
+/-- (fixed by D38)  Prerequisites read from wildcarded fields: with DL_TYPE wildcarded, the value left in the dl_type field decides whether
     nw_proto is compared — 0x0800 there and the flow stops matching a TCP packet, 0 there and it matches. -/
 theorem matches_prereq_defect :
     let r : OfMatch := { zeroMatch with wildcards := wc [.nwProto] 32 32, dlType := 0x0800, nwProto := 7 }
@@ -467,19 +638,19 @@ theorem matches_prereq_defect :
     Spec.matchHdr r (Spec.headers tcpFrame 1) = true :=
   ⟨by decide, by decide, by decide, by decide, by decide, by decide⟩
 
-/-- ARP opcode above 255: the standard uses the low 8 bits of the opcode and the ARP addresses; `from_packet` assigns
+/-- (fixed by D37)  ARP opcode above 255: the standard uses the low 8 bits of the opcode and the ARP addresses; `from_packet` assigns
     none of nw_proto / nw_src / nw_dst. -/
 theorem extract_arp_defect :
     (extract (arpFrame 257) (some 1)).nwProto = none ∧ (extract (arpFrame 257) (some 1)).nwSrc = none ∧
     (Spec.headers (arpFrame 257) 1).nwProto = 1 ∧ (Spec.headers (arpFrame 257) 1).nwSrc = 0x0a000001 := by decide
 
-/-- D26 seen from the packet side: the flow built from a complete ARP request by `from_packet` / `pack` has no wildcard bit on the
+/-- (fixed by D26)  D26 seen from the packet side: the flow built from a complete ARP request by `from_packet` / `pack` has no wildcard bit on the
     wire, yet the switch treats it as wildcarded (it keeps its own priority instead of the exact-match priority). -/
 theorem flow_from_packet_exact_defect :
     regular (arpFrame 1) = true ∧ (packFlowMod (fromPacket (arpFrame 1) 1)).wildcards = 0 ∧
     (ofWire (packFlowMod (fromPacket (arpFrame 1) 1))).isWildcarded = true := by decide
 
-/-- D26: a flow sent without any wildcard bit that is not an IPv4 TCP/UDP/ICMP flow (here: the exact flow of an ARP request)
+/-- (fixed by D26)  a flow sent without any wildcard bit that is not an IPv4 TCP/UDP/ICMP flow (here: the exact flow of an ARP request)
     is un-wired to a wildcarded match, keeps its own priority and loses against a wildcarded flow of higher priority, although
     the standard ranks exact-match flows above all others.  All other hypotheses of `lookup_spec_wire` hold. -/
 theorem exact_outranks_defect :
@@ -501,5 +672,5 @@ theorem exact_outranks_defect :
     revert this
     decide
 
-end Pox.C03
 
+end Pox.C03
